@@ -139,6 +139,9 @@ class VLoop(asyncio.AbstractEventLoop):
             out.append(handle_owner(h))
         return out
 
+    def ready_handles(self):
+        return [h for h in self._ready if not h._cancelled]
+
     def pending_timers(self):
         while self._timers and self._timers[0][2]._cancelled:
             heapq.heappop(self._timers)
